@@ -26,18 +26,30 @@ import MenpoModel.Lemmas.C10Float
 import MenpoModel.Lemmas.C10Access
 import MenpoModel.Lemmas.C10Object
 import MenpoModel.Lemmas.C10Src
+import Mathlib.Analysis.Real.Sqrt
+import Mathlib.Tactic.FinCases
+import Mathlib.Tactic.NormNum
 
 namespace MenpoModel.C10
 open Matrix St
 
 variable {n d k k' : ℕ}
 
-/-! ## (a) the defining identities -/
+/-! ## (a) the defining identities
+
+Stated for EVERY linearly ordered field `K` (audit finding F1): over `ℚ` alone the eigen contract would be satisfiable
+only for data with a rational eigen-decomposition; the ideal output of `eigh` lives in `ℝ`, which is an instance
+(`eig_contract_real_witness` below exhibits a data set whose contract has a real but no rational solution).  The
+driver evaluates the same definitions at `K = ℚ` on the float factors the code returned (residuals of the contract). -/
+
+section AnyField
+variable {K : Type} [Field K] [LinearOrder K] [IsStrictOrderedRing K]
+
 
 /-- PROPERTY (mean): the mean of a centred model is the sample mean (`n · m = Σ rows`), the centred
 data sums to zero, and an uncentred model has mean zero. -/
-theorem mean_clause (X : Matrix (Fin n) (Fin d) ℚ) (hn : n ≠ 0) :
-    (∀ j, (n : ℚ) * pcaMean true X j = ∑ i, X i j) ∧
+theorem mean_clause (X : Matrix (Fin n) (Fin d) K) (hn : n ≠ 0) :
+    (∀ j, (n : K) * pcaMean true X j = ∑ i, X i j) ∧
     (∀ j, ∑ i, centred X (pcaMean true X) i j = 0) ∧
     pcaMean false X = 0 :=
   ⟨mean_is_sample_mean X hn, centred_sum_zero X hn, rfl⟩
@@ -46,7 +58,7 @@ theorem mean_clause (X : Matrix (Fin n) (Fin d) ℚ) (hn : n ≠ 0) :
 symmetrisation changes nothing, so under the eigen contract the rows are orthonormal, they are
 eigen-rows of the sample covariance, and every eigenvalue *is* the sample variance
 `(n-1)⁻¹ Σ ((x - m)·u)²` of the data along its component (hence non-negative). -/
-theorem cov_path_identities {Xc : Matrix (Fin n) (Fin d) ℚ} {U : Matrix (Fin k) (Fin d) ℚ} {l : Fin k → ℚ}
+theorem cov_path_identities {Xc : Matrix (Fin n) (Fin d) K} {U : Matrix (Fin k) (Fin d) K} {l : Fin k → K}
     (hn : 2 ≤ n) (h : EigContract (symmetrize (cov Xc)) U l) :
     U * Uᵀ = 1 ∧ U * cov Xc = diagonal l * U ∧ (∀ i, l i = sampleVariance Xc U i) ∧ (∀ i, 0 ≤ l i) := by
   rw [symmetrize_cov] at h
@@ -58,10 +70,10 @@ theorem cov_path_identities {Xc : Matrix (Fin n) (Fin d) ℚ} {U : Matrix (Fin k
 components are `diag w · V · X` with `w = sqrt(1 / ((n-1) l))`; under the eigen contract on the Gram
 matrix and the square-root contract the rescaled rows are orthonormal eigen-rows of the sample
 covariance, and the eigenvalues are the sample variances along them. -/
-theorem gram_path_identities {Xc : Matrix (Fin n) (Fin d) ℚ} {V : Matrix (Fin k) (Fin n) ℚ}
-    {l w : Fin k → ℚ} (hn : 2 ≤ n) (hV : V * Vᵀ = 1)
+theorem gram_path_identities {Xc : Matrix (Fin n) (Fin d) K} {V : Matrix (Fin k) (Fin n) K}
+    {l w : Fin k → K} (hn : 2 ≤ n) (hV : V * Vᵀ = 1)
     (hG : V * symmetrize (gram Xc) = diagonal l * V)
-    (hw : ∀ i, w i ^ 2 * (((n : ℚ) - 1) * l i) = 1) :
+    (hw : ∀ i, w i ^ 2 * (((n : K) - 1) * l i) = 1) :
     EigContract (cov Xc) (gramComponents w V Xc) l ∧
     (∀ i, l i = sampleVariance Xc (gramComponents w V Xc) i) := by
   rw [symmetrize_gram] at hG
@@ -87,19 +99,19 @@ theorem spectrum_desc_pos_inverse {α} (eps : Rat) (ev : List (Rat × α)) :
   ⟨(postprocess_inverse_spec eps ev).1, (postprocess_inverse_spec eps ev).2.1⟩
 
 /-- PROPERTY: projecting an instance built from weights returns those weights. -/
-theorem project_instance_clause {U : Matrix (Fin k) (Fin d) ℚ} (hU : U * Uᵀ = 1) (m : Fin d → ℚ)
-    (w : Fin k → ℚ) : project U m (inst U m w) = w :=
+theorem project_instance_clause {U : Matrix (Fin k) (Fin d) K} (hU : U * Uᵀ = 1) (m : Fin d → K)
+    (w : Fin k → K) : project U m (inst U m w) = w :=
   project_instance hU m w
 
 /-- PROPERTY: reconstruction is idempotent. -/
-theorem reconstruct_idempotent_clause {U : Matrix (Fin k) (Fin d) ℚ} (hU : U * Uᵀ = 1) (m x : Fin d → ℚ) :
+theorem reconstruct_idempotent_clause {U : Matrix (Fin k) (Fin d) K} (hU : U * Uᵀ = 1) (m x : Fin d → K) :
     reconstruct U m (reconstruct U m x) = reconstruct U m x :=
   reconstruct_idempotent hU m x
 
 /-- PROPERTY: reconstruction is an orthogonal projection about the mean: it is `x ↦ P (x - m) + m`
 with `P` idempotent and symmetric, and `x = reconstruct x + project_out x`. -/
-theorem reconstruct_is_orthogonal_projection {U : Matrix (Fin k) (Fin d) ℚ} (hU : U * Uᵀ = 1)
-    (m x : Fin d → ℚ) :
+theorem reconstruct_is_orthogonal_projection {U : Matrix (Fin k) (Fin d) K} (hU : U * Uᵀ = 1)
+    (m x : Fin d → K) :
     reconstruct U m x = projector U *ᵥ (x - m) + m ∧
     projector U * projector U = projector U ∧ (projector U)ᵀ = projector U ∧
     reconstruct U m x + projectOut U m x = x :=
@@ -107,22 +119,22 @@ theorem reconstruct_is_orthogonal_projection {U : Matrix (Fin k) (Fin d) ℚ} (h
     reconstruct_add_projectOut U m x⟩
 
 /-- PROPERTY: the projected-out residual is orthogonal to every component. -/
-theorem residual_orthogonal_clause {U : Matrix (Fin k) (Fin d) ℚ} (hU : U * Uᵀ = 1) (m x : Fin d → ℚ) :
+theorem residual_orthogonal_clause {U : Matrix (Fin k) (Fin d) K} (hU : U * Uᵀ = 1) (m x : Fin d → K) :
     U *ᵥ projectOut U m x = 0 :=
   residual_orthogonal hU m x
 
 /-- PROPERTY: with all components kept (no variance discarded: `tr C = Σ l`) every training sample
 is reconstructed exactly. -/
-theorem full_model_reconstructs_training_clause {Xc : Matrix (Fin n) (Fin d) ℚ}
-    {U : Matrix (Fin k) (Fin d) ℚ} {l : Fin k → ℚ} (hn : 2 ≤ n) (h : EigContract (cov Xc) U l)
-    (htr : trace (cov Xc) = ∑ i, l i) (m : Fin d → ℚ) (s : Fin n) :
+theorem full_model_reconstructs_training_clause {Xc : Matrix (Fin n) (Fin d) K}
+    {U : Matrix (Fin k) (Fin d) K} {l : Fin k → K} (hn : 2 ≤ n) (h : EigContract (cov Xc) U l)
+    (htr : trace (cov Xc) = ∑ i, l i) (m : Fin d → K) (s : Fin n) :
     reconstruct U m (fun j => Xc s j + m j) = fun j => Xc s j + m j :=
   full_model_reconstructs_training hn h htr m s
 
 /-- PROPERTY ("also after trimming"): the active / trimmed prefix of the components with the prefix
 of the eigenvalues satisfies the same contract, so every identity above holds for it too. -/
-theorem identities_after_trimming {Xc : Matrix (Fin n) (Fin d) ℚ} {U : Matrix (Fin k) (Fin d) ℚ}
-    {l : Fin k → ℚ} (h : EigContract (cov Xc) U l) (hk : k' ≤ k) (m x : Fin d → ℚ) (w : Fin k' → ℚ) :
+theorem identities_after_trimming {Xc : Matrix (Fin n) (Fin d) K} {U : Matrix (Fin k) (Fin d) K}
+    {l : Fin k → K} (h : EigContract (cov Xc) U l) (hk : k' ≤ k) (m x : Fin d → K) (w : Fin k' → K) :
     let U' := prefixRows U hk
     U' * U'ᵀ = 1 ∧ (∀ i, (l ∘ Fin.castLE hk) i = sampleVariance Xc U' i) ∧
     project U' m (inst U' m w) = w ∧
@@ -131,6 +143,34 @@ theorem identities_after_trimming {Xc : Matrix (Fin n) (Fin d) ℚ} {U : Matrix 
   have h' := contract_prefix h hk
   exact ⟨h'.orth, variance_identity h', project_instance h'.orth m w,
     reconstruct_idempotent h'.orth m x, residual_orthogonal h'.orth m x⟩
+
+/-- satisfiability beyond `ℚ`: the data `[[1, 1], [-1, -1]]` has covariance `[[2, 2], [2, 2]]`; in any ordered field
+with a square root `s` of 2 the unit row `(s/2, s/2)` with eigenvalue 4 satisfies the contract (and then every
+conclusion above) — over `ℚ` no unit eigen-row for the eigenvalue 4 exists. -/
+def wX : Matrix (Fin 2) (Fin 2) K := Matrix.of fun i _ => if i = 0 then 1 else -1
+
+theorem eig_contract_sqrt_two_witness (s : K) (hs : s * s = 2) :
+    EigContract (cov (wX : Matrix (Fin 2) (Fin 2) K)) (Matrix.of fun (_ : Fin 1) (_ : Fin 2) => s / 2) (fun _ => 4) := by
+  have h4 : s / 2 * (s / 2) = 1 / 2 := by
+    have : s / 2 * (s / 2) = (s * s) / 4 := by ring
+    rw [this, hs]; norm_num
+  constructor
+  · ext i j
+    fin_cases i; fin_cases j
+    simp [Matrix.mul_apply, Fin.sum_univ_two, h4]
+  · ext i j
+    fin_cases i
+    fin_cases j <;>
+      simp [cov, wX, Matrix.mul_apply, Fin.sum_univ_two, Matrix.diagonal] <;> ring
+
+end AnyField
+
+/-- the real numbers are an instance: `Real.sqrt 2` -/
+theorem eig_contract_real_witness :
+    ∃ (U : Matrix (Fin 1) (Fin 2) ℝ) (l : Fin 1 → ℝ), EigContract (cov (wX : Matrix (Fin 2) (Fin 2) ℝ)) U l ∧
+      U * Uᵀ = 1 ∧ ∀ i, l i = sampleVariance (wX : Matrix (Fin 2) (Fin 2) ℝ) U i :=
+  have h := eig_contract_sqrt_two_witness (Real.sqrt 2) (Real.mul_self_sqrt (by norm_num))
+  ⟨_, _, h, h.orth, variance_identity h⟩
 
 /-- the forms the driver evaluates (intermediate results forced into arrays) are the definitions above -/
 theorem driver_forms (U : Matrix (Fin k) (Fin d) ℚ) (m x : Fin d → ℚ) :
@@ -141,7 +181,9 @@ theorem driver_forms (U : Matrix (Fin k) (Fin d) ℚ) (m x : Fin d → ℚ) :
 
 /-! ## (c) object-backed models (`PCAModel`): the object-level operations are the vector-level ones -/
 
-/-- PROPERTY (object wrapping): for every Vectorizable class satisfying the round-trip law, each
+/-- (restatement of the object model `ObjModel`, kept for the driver's sake: one conjunct is `rfl`, the others unfold
+the definitions through the round-trip law; the tie of `ObjModel` to the code is the regenerated call table
+`GenProps.delegates_ok`.)  For every Vectorizable class satisfying the round-trip law, each
 object-level operation of `PCAModel`, read back through `as_vector`, *is* the vector-level operation on
 `as_vector` of the argument; results built by `template.from_vector` carry the template's non-vector
 state, results built by the argument's `from_vector` carry the argument's. -/
@@ -519,8 +561,10 @@ theorem clamp_is_noop_in_exact_arithmetic {eig0 : List Rat} (h0 : eig0 ≠ []) (
 /-- PROPERTY (constructors: "building with that many components in the first place"): whatever the library calls
 return (`np : Src.NP A`, symbolic arrays), the bookkeeping state built by `PCAVectorModel(…)`, `PCAModel(…)` and the
 `init_from_covariance_matrix` / `init_from_components` constructors of both classes is `build` on the number of
-eigenvector rows, the eigenvalues and the `max_n_components` argument — so `trim_eq_build_with_max` and its relatives
-speak about what every constructor builds; `PCAModel` records the number of rows of its data matrix as `n_samples` and
+eigenvector rows, the eigenvalues and the `max_n_components` argument — so, WHEN the number of eigenvector rows equals
+the number of eigenvalues (a contract of `pca` / `pcacov` / the caller of `init_from_components`, not checked by the
+code: hypothesis `hlen` of `src_trim_eq_build_with_max`), `trim_eq_build_with_max` and its relatives, stated for
+`init eig0.length eig0`, speak about what every constructor builds; `PCAModel` records the number of rows of its data matrix as `n_samples` and
 `as_matrix`' template as its template.  (`GenProps/C10Src.lean` proves the translated constructors equal to these.) -/
 theorem constructors_build {A : Type} (np : Src.NP A) (fl : Src.Fl) (self : Src.Plumb A) (X C comps ev mean : A)
     (centre inv ip : Bool) (ns mx : Src.PyVal) :
